@@ -50,9 +50,17 @@ def run(ctx):
                          "test while the query answers None, so a program with a diverging operand panics while parsing"
                     % (what, query, creator, ", ".join("Type::" + a for a in accept)), b.where())
     # assign::can_be_used: return_type callback control-dependent on the can_be_used callback
-    b = lib.body("instruction::bin_op::assign::can_be_used")
-    if res.anchor(b is not None, "assign::can_be_used"):
-        cbs = [c for c in b.calls if c.path in ("std::ops::FnOnce::call_once", "std::ops::Fn::call", "std::ops::FnMut::call_mut")]
+    b0 = lib.body("instruction::bin_op::assign::can_be_used")
+    if res.anchor(b0 is not None, "assign::can_be_used"):
+        CB = ("std::ops::FnOnce::call_once", "std::ops::Fn::call", "std::ops::FnMut::call_mut")
+        # the two callbacks may sit in the function or in one closure / helper of it (e.g. the body of an `all` over the
+        # member cells of a union): judge the body that holds them
+        b = b0
+        for hb in own.members(b0.id):
+            if sum(1 for c in hb.calls if c.path in CB) >= 2:
+                b = hb
+                break
+        cbs = [c for c in b.calls if c.path in CB]
         key = "queryguard:assign:return_type-after-can_be_used"
         if len(cbs) != 2:
             res.bad(key, "assign::can_be_used must call the admissibility callback and the result-type callback exactly once each (found %d calls)" % len(cbs), b.where())
